@@ -5,6 +5,8 @@
 #![allow(unused)]
 #![cfg(kani)]
 pub mod util;
+#[cfg(feature = "c01")]
+pub mod c01;
 #[cfg(feature = "c05")]
 pub mod c05;
 #[cfg(feature = "c06")]
